@@ -23,18 +23,40 @@ const c08Prelude = `
 var __recv, __log="", __script={}, __sn=0, __si=0, __objs={}, __isprim=false, __wrap;
 function __obj(id){
   if (!Object.prototype.hasOwnProperty.call(__objs,id)) {
-    var f=function(){ return __play(id); };
-    __objs[id]={__id:id, valueOf:f, toString:f};
+    if (id>=50 && id<60) {
+      // a nested array: its toLocaleString is the builtin again
+      var k=id-50, n=[__obj(10+k), k, null, __obj(20+k)];
+      n.__id=id; __objs[id]=n;
+    } else {
+      var f=function(){ return __play(id); };
+      var o={__id:id, valueOf:f, toString:f};
+      o.toLocaleString = id===7 ? 5 : function(){ __llog("O"+id, arguments); return __playq(); };
+      __objs[id]=o;
+    }
   }
   return __objs[id];
 }
-function __play(id){
-  __log+=(__log===""?"~":";")+"O"+id;
+function __playq(){
   if (__si>=__sn) { __si++; return undefined; }
   var c=__script[__si++];
   c.eff();
   if (c.thr) throw c.thr();
   return c.res;
+}
+function __play(id){
+  __log+=(__log===""?"~":";")+"O"+id;
+  return __playq();
+}
+// what a toLocaleString of an element logs: its this, arguments.length, the arguments
+function __llog(t, args){
+  var s=__v("L")+","+t+","+__v(args.length);
+  for (var i=0;i<args.length;i++) s+=","+__v(args[i]);
+  __log+=(__log===""?"~":";")+s;
+}
+function __primLocale(){
+  var t=(typeof this==="object" && this!==null) ? __v(this.valueOf()) : "prim";
+  __llog(t, arguments);
+  return String(this.valueOf());
 }
 function __v(x){
   if (x===undefined) return "u"; if (x===null) return "n"; if (x===true) return "T"; if (x===false) return "F";
@@ -74,6 +96,9 @@ function __dump(o){
   return "L"+(ld ? __v(ld.value)+"w"+(ld.writable?"1":"0") : "-")+"x"+(Object.isExtensible(o)?"1":"0")+"{"+a+(a!==""&&b!==""?";":"")+b+"}";
 }
 function __err(e){ return "E"+(e && e.name ? e.name : "?"); }
+// the elements' toLocaleString belongs to the harness: Number/String/Boolean values log like the scripted objects
+Number.prototype.toLocaleString=__primLocale; String.prototype.toLocaleString=__primLocale;
+Object.defineProperty(Boolean.prototype,"toLocaleString",{value:__primLocale,writable:true,enumerable:false,configurable:true});
 `
 
 func c08NewVM() *otto.Otto {
@@ -278,6 +303,9 @@ func c08Script(f []string) string {
 		case "call":
 			var args []string
 			name := strings.TrimSuffix(p[1], "!")
+			if name == "sort" && p[2] != "" {
+				args = append(args, "undefined") // comparefn, then the surplus arguments
+			}
 			switch name {
 			case "sortNum":
 				name = "sort"
@@ -494,6 +522,10 @@ func genC08(c *h.Ctx) {
 	for i := 0; i < c.N(3000, 100000); i++ {
 		genLenValue(c)
 	}
+	// 8. toLocaleString: elements whose toLocaleString logs its this, arguments.length and arguments
+	for i := 0; i < c.N(8000, 250000); i++ {
+		genLocale(c)
+	}
 	// 4. length scenarios: non-configurable elements, non-writable length, then length changes
 	for i := 0; i < c.N(6000, 150000); i++ {
 		genLengthScenario(c)
@@ -532,6 +564,157 @@ func genNumArg(r *h.Rng, n int) string {
 }
 
 var c08Methods = []string{"push", "pop", "shift", "unshift", "slice", "splice", "indexOf", "lastIndexOf", "reverse", "join", "concat", "every", "some", "forEach", "map", "filter", "reduce", "reduceRight"}
+
+// the number of arguments ES5 names after the implicit callback / comparefn; push, unshift, concat and splice take any number
+var c08Arity = map[string]int{"pop": 0, "shift": 0, "reverse": 0, "toString": 0, "toLocaleString": 0, "sort": 0, "sortNum": 0, "sortInf": 0,
+	"join": 1, "slice": 2, "indexOf": 2, "lastIndexOf": 2, "every": 1, "some": 1, "forEach": 1, "map": 1, "filter": 1, "reduce": 1, "reduceRight": 1}
+
+// genSurplus: a value of any kind, among them scripted objects (31…: converting one would be logged) and an array (55)
+func genSurplus(r *h.Rng) string {
+	switch r.Intn(8) {
+	case 0:
+		return "O" + strconv.Itoa(31+r.Intn(3))
+	case 1:
+		return "O55"
+	case 2:
+		return []string{sTok("x"), sTok("de"), sTok(""), dTok(0), dTok(2), dTok(36), dTok(math.NaN()), "u", "n", "T", "F"}[r.Intn(11)]
+	}
+	return genElem(r)
+}
+
+// addSurplus fills the argument list up to the arguments ES5 names and appends one to three more: they must be ignored.
+func addSurplus(r *h.Rng, m string, args []string, n int) []string {
+	name := strings.TrimSuffix(m, "!")
+	ar, ok := c08Arity[name]
+	if !ok {
+		return args
+	}
+	for len(args) < ar {
+		switch name {
+		case "join":
+			args = append(args, []string{sTok("-"), "u", sTok("")}[r.Intn(3)])
+		case "slice", "indexOf", "lastIndexOf":
+			args = append(args, genNumArg(r, n))
+		default:
+			args = append(args, genElem(r)) // thisArg / initialValue
+		}
+	}
+	for j := 1 + r.Intn(3); j > 0; j-- {
+		args = append(args, genSurplus(r))
+	}
+	return args
+}
+
+// genLocale: toLocaleString with zero to three arguments of every kind on arrays, array-likes and primitives whose
+// elements are scripted objects (their toLocaleString logs and plays the script: a result, an effect on the receiver,
+// an exception; 7 has one that is not callable), nested arrays (50…), numbers, strings, booleans, undefined, null, holes.
+func genLocale(c *h.Ctx) {
+	r := c.Rng
+	n := r.Intn(6)
+	es := make([]string, n)
+	for i := range es {
+		switch k := r.Intn(20); {
+		case k < 3:
+			es[i] = "_"
+		case k < 10:
+			es[i] = "O" + strconv.Itoa(1+r.Intn(6))
+		case k == 10 && r.Chance(40):
+			es[i] = "O7"
+		case k < 13:
+			es[i] = "O" + strconv.Itoa(50+r.Intn(6))
+		default:
+			es[i] = genElem(r)
+		}
+	}
+	var line string
+	lenObj, isArr := false, false
+	keys := []string{"locale"}
+	switch k := r.Intn(20); {
+	case k < 12:
+		var ps []string
+		if r.Chance(10) {
+			ps = append(ps, fmt.Sprintf("%d:%s", r.Intn(n+1), genElem(r)))
+		}
+		line = "h a=" + strings.Join(es, ",") + " p=" + strings.Join(ps, ",")
+		isArr = true
+		keys = append(keys, "locale:array")
+	case k < 17:
+		l := dTok(float64(n))
+		switch r.Intn(8) {
+		case 0, 1:
+			l = "O9"
+			lenObj = true
+		case 2:
+			l = sTok(strconv.Itoa(n))
+		case 3:
+			l = []string{dTok(float64(n) + 0.5), "u", "n", "T", dTok(math.NaN()), "-"}[r.Intn(6)]
+		case 4:
+			l = dTok(float64(r.Intn(n + 3)))
+		}
+		line = "h o=" + l + "|" + strings.Join(es, ",") + " p="
+		keys = append(keys, "locale:like")
+	case k < 19:
+		line = "h v=" + c08Prims[r.Intn(len(c08Prims))] + " p="
+		keys = append(keys, "locale:prim")
+	default:
+		line = "h A= p="
+		for i, e := range es {
+			if e != "_" {
+				line += fmt.Sprintf(" put/%s/%s", kTok(strconv.Itoa(i)), e)
+			}
+		}
+		keys = append(keys, "locale:arrayproto")
+	}
+	res := func() string {
+		switch k := r.Intn(24); {
+		case k == 0:
+			return "!T"
+		case k == 1:
+			return "!R"
+		case k < 5:
+			return []string{"u", "n", "T", dTok(math.NaN()), dTok(2.5), dTok(1), dTok(math.Copysign(0, -1))}[r.Intn(7)]
+		case k == 5:
+			return "O40" // an object: ToString runs its toString, the next script entry
+		}
+		return []string{sTok("x"), sTok("y"), sTok(""), sTok("1,2"), sTok("n=0"), sTok("z")}[r.Intn(6)]
+	}
+	eff := func() string {
+		if !isArr || r.Chance(75) {
+			return "-"
+		}
+		switch r.Intn(3) {
+		case 0:
+			return "p" + genElem(r)
+		case 1:
+			return "l" + dTok(float64(r.Intn(n+2)))
+		}
+		return "d" + strconv.Itoa(r.Intn(n+1))
+	}
+	for st := 1 + r.Intn(2); st > 0; st-- {
+		var args []string
+		for j := []int{0, 0, 1, 1, 2, 3}[r.Intn(6)]; j > 0; j-- {
+			if r.Chance(15) && isArr {
+				args = append(args, "R")
+			} else {
+				args = append(args, genSurplus(r))
+			}
+		}
+		var script []string
+		if lenObj {
+			script = append(script, "-~"+dTok(float64(n)))
+		}
+		for j := r.Intn(2*n + 3); j > 0; j-- {
+			e := eff() + "~" + res()
+			for len(script) > 0 && strings.HasSuffix(script[len(script)-1], "~O40") && strings.HasSuffix(e, "~O40") {
+				e = eff() + "~" + res() // the toString of a result object returns a primitive
+			}
+			script = append(script, e)
+		}
+		line += " call/toLocaleString/" + strings.Join(args, ",") + "//" + strings.Join(script, ",")
+		keys = append(keys, fmt.Sprintf("locale:args%d", len(args)))
+	}
+	c.Add(line, keys...)
+}
 
 var c08WeirdKeys = []string{"01", "00", "+1", "-0", "+0", "-1", "1.0", "1e0", " 1", "x", "007", "+3", "4294967294", "4294967295", "4294967296", "04", "+4294967294"}
 
@@ -694,6 +877,12 @@ func genHistory(c *h.Ctx) {
 					m += "!"
 				}
 			}
+			if r.Chance(15) {
+				if a2 := addSurplus(r, m, args, n); len(a2) != len(args) {
+					args = a2
+					keys = append(keys, "surplus:"+strings.TrimSuffix(m, "!"))
+				}
+			}
 			st = "call/" + m + "/" + strings.Join(args, ",") + "/" + strings.Join(rets, ",")
 			keys = append(keys, "call:"+m)
 		}
@@ -798,11 +987,17 @@ func genSort(c *h.Ctx) {
 	if r.Chance(20) {
 		line += fmt.Sprintf(" put/%s/%s", kTok(strconv.Itoa(r.Intn(n+3))), pool[r.Intn(len(pool))])
 	}
-	line += " call/" + m + "//"
+	keys := []string{"sort:" + m}
+	sargs := ""
+	if r.Chance(15) {
+		sargs = strings.Join(addSurplus(r, m, nil, n), ",")
+		keys = append(keys, "surplus:sort")
+	}
+	line += " call/" + m + "/" + sargs + "/"
 	if r.Chance(25) {
 		line += " call/" + m + "//"
 	}
-	c.Add(line, "sort:"+m)
+	c.Add(line, keys...)
 }
 
 func genOrder(c *h.Ctx) {
@@ -880,6 +1075,7 @@ func genOrder(c *h.Ctx) {
 	if r.Chance(20) {
 		steps = 2
 	}
+	surplus := false
 	for st := 0; st < steps; st++ {
 		nobj = 0
 		m := []string{"slice", "slice", "splice", "splice", "indexOf", "lastIndexOf", "lastIndexOf", "join", "join",
@@ -941,7 +1137,15 @@ func genOrder(c *h.Ctx) {
 			// a separator that is a string
 			script[0] = script[0][:strings.Index(script[0], "~")+1] + []string{sTok("-"), sTok(""), sTok(", ")}[r.Intn(3)]
 		}
+		if r.Chance(15) {
+			args = addSurplus(r, m, args, n)
+			surplus = true
+		}
 		line += " call/" + m + "/" + strings.Join(args, ",") + "/" + strings.Join(rets, ",") + "/" + strings.Join(script, ",")
+	}
+	if surplus {
+		c.Add(line, "order", "order:surplus")
+		return
 	}
 	c.Add(line, "order")
 }
@@ -1000,6 +1204,9 @@ func genPrim(c *h.Ctx) {
 			if r.Chance(6) {
 				m += "!"
 			}
+		}
+		if r.Chance(15) {
+			args = addSurplus(r, m, args, n)
 		}
 		line += " call/" + m + "/" + strings.Join(args, ",") + "/" + strings.Join(rets, ",")
 	}
